@@ -103,6 +103,7 @@ func (w *World) execSave() bool {
 		return false
 	}
 	w.lastSaveTip = w.tip
+	w.deepReorgSinceSave = false
 	return true
 }
 
@@ -689,7 +690,12 @@ func (w *World) checkImage(img *simstore.Store, what string, lastSaved *model.No
 	if repo.AccumulatedWork().Cmp(tn.Work) != 0 {
 		w.c.Fail("c12.work-consistent", "work-mismatch", "%s: loaded accumulated work %s differs from the tip's %s", what, repo.AccumulatedWork().Text(16), tn.Work.Text(16))
 	}
-	if !w.checkAncestry("c12.chain-linked", repo, tn) {
+	if w.deepReorgSinceSave {
+		w.ancestrySuffix = ":after-reorg-deeper-than-prune-depth"
+	}
+	linked := w.checkAncestry("c12.chain-linked", repo, tn)
+	w.ancestrySuffix = ""
+	if !linked {
 		return
 	}
 	// usable, not merely loadable: extend the loaded tip by one header
